@@ -77,7 +77,7 @@ theorem check_of_fits (a : Acc α) (e d : α) (h1 : checkEpsDelta e d = .ok ())
 
 /-- what an accepted `_check_cells` says -/
 theorem checkCells_ok (a : Acc α) (ε c : α) (n : Nat) (h : checkCells a ε c n = .ok ()) :
-    a.check ε 0 = .ok () ∧ Fits a (a.spent ++ List.replicate n ⟨c, 0⟩) := by
+    checkEpsDelta ε 0 = .ok () ∧ Fits a (a.spent ++ List.replicate n ⟨c, 0⟩) := by
   unfold checkCells at h
   simp only [bind, Except.bind, pure, Except.pure] at h
   split at h
@@ -214,6 +214,64 @@ theorem scalarQ_length (w : World α) (ex : Option Nat) (ε : α) (b : Body ρ) 
       · rfl
       · simp
 
+/-! ### nested composition: a list of quantiles over an axis -/
+
+/-- `_check_cells` accepts when epsilon is valid and the whole sequence of cell spends fits -/
+theorem checkCells_of_fits (a : Acc α) (ε c : α) (n : Nat) (hv : checkEpsDelta ε 0 = .ok ())
+    (h : Fits a (a.spent ++ List.replicate n ⟨c, 0⟩)) : checkCells a ε c n = .ok () := by
+  obtain ⟨hf, b, hb, hbe, hbd⟩ := h
+  unfold checkCells
+  simp only [bind, Except.bind, pure, Except.pure, hv, hf, hb]
+  simp [hbe, hbd]
+
+theorem getElem?_lt_of_some {β : Type} (l : List β) (i : Nat) (x : β) (h : l[i]? = some x) : i < l.length := by
+  rcases Nat.lt_or_ge i l.length with h' | h'
+  · exact h'
+  · rw [List.getElem?_eq_none h'] at h; cases h
+
+/-- a run of sub-queries each of which appends a block of `n` equal spends to accountant `i` and succeeds -/
+theorem runAll_blocks {σ : Type} (i n : Nat) (sp : Spend α) (qs : List (Query α σ)) (w : World α) (a : Acc α)
+    (hi : w.accs[i]? = some a)
+    (hstep : ∀ j (hj : j < qs.length) (w' : World α), w'.dflt = w.dflt →
+      w'.accs[i]? = some (Acc.plus a (List.replicate (j * n) sp)) →
+      ∃ r k, qs[j] w' = ⟨.ok r, w'.accs.set i (Acc.plus a (List.replicate ((j + 1) * n) sp)), k⟩) :
+    ∃ rs k, runAll qs w = ⟨.ok rs, w.accs.set i (Acc.plus a (List.replicate (qs.length * n) sp)), k⟩ := by
+  induction qs generalizing w a with
+  | nil =>
+    have hlt := getElem?_lt_of_some _ _ _ hi
+    have : w.accs.set i a = w.accs := by
+      apply List.ext_getElem?
+      intro k
+      by_cases hk : k = i
+      · subst hk; rw [List.getElem?_set_self hlt, hi]
+      · rw [List.getElem?_set_ne (Ne.symm hk)]
+    exact ⟨[], 0, by simp [runAll, plus_nil, this]⟩
+  | cons q qs ih =>
+    have hlt := getElem?_lt_of_some _ _ _ hi
+    obtain ⟨r, k, hq⟩ := hstep 0 (by simp) w rfl (by simpa [plus_nil] using hi)
+    simp only [List.getElem_cons_zero, Nat.zero_add, Nat.one_mul] at hq
+    let w1 : World α := { w with accs := w.accs.set i (Acc.plus a (List.replicate n sp)) }
+    have hi1 : w1.accs[i]? = some (Acc.plus a (List.replicate n sp)) := List.getElem?_set_self hlt
+    have hstep1 : ∀ j (hj : j < qs.length) (w' : World α), w'.dflt = w1.dflt →
+        w'.accs[i]? = some (Acc.plus (Acc.plus a (List.replicate n sp)) (List.replicate (j * n) sp)) →
+        ∃ r k, qs[j] w' = ⟨.ok r, w'.accs.set i
+          (Acc.plus (Acc.plus a (List.replicate n sp)) (List.replicate ((j + 1) * n) sp)), k⟩ := by
+      intro j hj w' hd hacc
+      have e1 : n + j * n = (j + 1) * n := by rw [Nat.succ_mul, Nat.add_comm]
+      have e2 : n + (j + 1) * n = (j + 1 + 1) * n := by rw [Nat.succ_mul (j + 1), Nat.add_comm]
+      rw [plus_plus, List.replicate_append_replicate, e1] at hacc
+      obtain ⟨r', k', h'⟩ := hstep (j + 1) (by simpa using hj) w' hd hacc
+      refine ⟨r', k', ?_⟩
+      rw [plus_plus, List.replicate_append_replicate, e2]
+      simpa using h'
+    obtain ⟨rs, k1, hrest⟩ := ih w1 (Acc.plus a (List.replicate n sp)) hi1 hstep1
+    refine ⟨r :: rs, k + k1, ?_⟩
+    simp only [runAll, hq]
+    have hw1 : ({ w with accs := w.accs.set i (Acc.plus a (List.replicate n sp)) } : World α) = w1 := rfl
+    rw [hw1, hrest]
+    have e3 : n + qs.length * n = (qs.length + 1) * n := by rw [Nat.succ_mul, Nat.add_comm]
+    simp only [w1, plus_plus, List.replicate_append_replicate, List.set_set, Except.map, List.length_cons, e3]
+
 /-! ### frame: queries with an explicit accountant leave all the others alone -/
 
 /-- `q` changes at most the accountant with index `i` and neither adds nor drops accountants -/
@@ -317,134 +375,9 @@ theorem fits_prefix_real (a : Acc ℝ) (hs0 : 0 ≤ a.slack) (hs1 : a.slack ≤ 
     have : (totalCore (l ++ [⟨sp.eps, sp.delta⟩]) a.slack).delta = b.delta := by rw [hb'.1]
     linarith
 
-/-! ### nested split (multi-quantile over an axis): the per-quantile check is implied by the up-front one -/
-
 theorem checkEpsDelta_of_pos (e : ℝ) (h : 0 < e) : checkEpsDelta e 0 = .ok () := by
   have hne : ¬ (e + 0 ≤ 0) := by linarith
   simp [checkEpsDelta, h.le, h, feq, hne]
-
-/-- the ratio `(1 − e^{−x})/(1 + e^{−x})` is monotone -/
-theorem ratio_mono {x y : ℝ} (hxy : x ≤ y) :
-    (1 - Real.exp (-x)) / (1 + Real.exp (-x)) ≤ (1 - Real.exp (-y)) / (1 + Real.exp (-y)) := by
-  have ha : 0 < Real.exp (-x) := Real.exp_pos _
-  have hb : 0 < Real.exp (-y) := Real.exp_pos _
-  have hab : Real.exp (-y) ≤ Real.exp (-x) := Real.exp_le_exp.mpr (by linarith)
-  rw [div_le_div_iff₀ (by linarith) (by linarith)]
-  nlinarith
-
-/-- what an accepted `check` says when the accountant is not unlimited -/
-theorem fits_of_check (a : Acc ℝ) (e d : ℝ) (h : a.check e d = .ok ()) : Fits a (a.spent ++ [⟨e, d⟩]) := by
-  unfold Acc.check at h
-  simp only [bind, Except.bind, pure, Except.pure] at h
-  split at h
-  · cases h
-  · have hu : a.unlimited = false := by simp [Acc.unlimited]
-    simp only [hu, Bool.false_eq_true, if_false] at h
-    split at h
-    · cases h
-    · split at h
-      · cases h
-      · rename_i u hf
-        split at h
-        · cases h
-        · rename_i b hb
-          split at h
-          · rename_i hc
-            simp only [Bool.and_eq_true, decide_eq_true_eq] at hc
-            cases u
-            exact ⟨hf, b, hb, hc.1, hc.2⟩
-          · cases h
-
-/-- over ℝ: if the history with ONE spend of `ε` fits, so does the history with `k` spends of `c` followed by one
-spend of `e'`, whenever `k c + e' ≤ ε` (all deltas zero).  Each of the three sums of `total` only shrinks:
-`Σ`, `Σ x·r(x)` with `r` monotone, and `Σ x²`. -/
-theorem fits_split_real (a : Acc ℝ) (hs0 : 0 ≤ a.slack) (hs1 : a.slack ≤ 1) (l : List (Spend ℝ)) (ε c e' : ℝ)
-    (k : Nat) (hc0 : 0 < c) (he0 : 0 < e') (hsum : (k : ℝ) * c + e' ≤ ε)
-    (h : Fits a (l ++ [⟨ε, 0⟩])) : Fits a ((l ++ List.replicate k ⟨c, 0⟩) ++ [⟨e', 0⟩]) := by
-  obtain ⟨hf, b, hb, hbe, hbd⟩ := h
-  have hall := forM_checkEpsDelta_ok _ hf
-  have hl : ∀ x ∈ l, checkEpsDelta x.eps x.delta = .ok () := fun x hx => hall x (List.mem_append_left _ hx)
-  have hrange : ∀ x ∈ l, 0 ≤ x.eps ∧ 0 ≤ x.delta ∧ x.delta ≤ 1 := fun x hx =>
-    let r := checkEpsDelta_ok _ _ (hl x hx); ⟨r.1, r.2.1, r.2.2.1⟩
-  have hk : (0 : ℝ) ≤ k := Nat.cast_nonneg k
-  have hkc : 0 ≤ (k : ℝ) * c := mul_nonneg hk hc0.le
-  have hcε : (k : ℝ) * c ≤ ε := by linarith
-  have he'ε : e' ≤ ε := by linarith
-  have hε0 : 0 < ε := by linarith
-  have hb' := mkBudget_ok _ _ b hb
-  set L' := (l ++ List.replicate k (⟨c, 0⟩ : Spend ℝ)) ++ [⟨e', 0⟩] with hL'
-  have hvalid : ∀ x ∈ L', checkEpsDelta x.eps x.delta = .ok () := by
-    intro x hx
-    rcases List.mem_append.mp hx with hx | hx
-    · rcases List.mem_append.mp hx with hx | hx
-      · exact hl x hx
-      · rw [(List.mem_replicate.mp hx).2]; exact checkEpsDelta_of_pos c hc0
-    · rw [List.mem_singleton.mp hx]; exact checkEpsDelta_of_pos e' he0
-  have hnn : ∀ x ∈ L', 0 ≤ x.eps := fun x hx => (checkEpsDelta_ok _ _ (hvalid x hx)).1
-  -- the three sums
-  have sums : ∀ g : Spend ℝ → ℝ, (L'.map g).sum = (l.map g).sum + k * g ⟨c, 0⟩ + g ⟨e', 0⟩ := by
-    intro g
-    rw [hL', List.map_append, List.sum_append, sums_append_replicate]; simp
-  have sumsL : ∀ g : Spend ℝ → ℝ, ((l ++ [(⟨ε, 0⟩ : Spend ℝ)]).map g).sum = (l.map g).sum + g ⟨ε, 0⟩ := by
-    intro g; simp
-  have hdelta : (totalCore L' a.slack).delta = (totalCore (l ++ [⟨ε, 0⟩]) a.slack).delta := by
-    rw [totalCore_delta, totalCore_delta, hL']
-    simp [List.map_append, List.prod_append, List.map_replicate, List.prod_replicate]
-  have heps : (totalCore L' a.slack).eps ≤ (totalCore (l ++ [⟨ε, 0⟩]) a.slack).eps := by
-    rcases eq_or_lt_of_le hs0 with h0 | hpos
-    · rw [← h0, totalCore_eps_zero, totalCore_eps_zero, sums, sumsL]
-      simp only
-      linarith
-    · rw [totalCore_eps_pos _ _ hpos.ne', totalCore_eps_pos _ _ hpos.ne']
-      rw [sums, sums, sums, sumsL, sumsL, sumsL]
-      simp only
-      have hrε := ratio_nonneg hε0.le
-      have hre : (1 - Real.exp (-e')) / (1 + Real.exp (-e')) ≤ (1 - Real.exp (-ε)) / (1 + Real.exp (-ε)) :=
-        ratio_mono he'ε
-      have hcle : k = 0 ∨ c ≤ ε := by
-        rcases Nat.eq_zero_or_pos k with hk0 | hkpos
-        · exact Or.inl hk0
-        · right
-          have : (1 : ℝ) ≤ k := by exact_mod_cast hkpos
-          nlinarith
-      apply epsOf_mono _ _ _ _ hpos hs1
-      · linarith
-      · -- Σ x r(x)
-        rw [gTerm_eq, gTerm_eq, gTerm_eq]
-        have h1 : (k : ℝ) * (c * ((1 - Real.exp (-c)) / (1 + Real.exp (-c)))) ≤
-            (k : ℝ) * c * ((1 - Real.exp (-ε)) / (1 + Real.exp (-ε))) := by
-          rcases hcle with hk0 | hcε'
-          · subst hk0; simp
-          · rw [mul_assoc]
-            exact mul_le_mul_of_nonneg_left (mul_le_mul_of_nonneg_left (ratio_mono hcε') hc0.le) hk
-        have h2 : e' * ((1 - Real.exp (-e')) / (1 + Real.exp (-e'))) ≤
-            e' * ((1 - Real.exp (-ε)) / (1 + Real.exp (-ε))) := mul_le_mul_of_nonneg_left hre he0.le
-        have h3 : ((k : ℝ) * c + e') * ((1 - Real.exp (-ε)) / (1 + Real.exp (-ε))) ≤
-            ε * ((1 - Real.exp (-ε)) / (1 + Real.exp (-ε))) := mul_le_mul_of_nonneg_right hsum hrε
-        nlinarith
-      · have := sum_sq_nonneg l
-        have h1 : 0 ≤ (k : ℝ) * (c * c) := mul_nonneg hk (mul_self_nonneg c)
-        have h2 : 0 ≤ e' * e' := mul_self_nonneg e'
-        linarith
-      · -- Σ x²
-        have h1 : (k : ℝ) * (c * c) ≤ (k : ℝ) * c * ε := by
-          rcases hcle with hk0 | hcε'
-          · subst hk0; simp
-          · rw [mul_assoc]; exact mul_le_mul_of_nonneg_left (mul_le_mul_of_nonneg_left hcε' hc0.le) hk
-        have h2 : e' * e' ≤ e' * ε := mul_le_mul_of_nonneg_left he'ε he0.le
-        have h3 : ((k : ℝ) * c + e') * ε ≤ ε * ε := mul_le_mul_of_nonneg_right hsum hε0.le
-        nlinarith
-  have hbeq : b = ⟨(totalCore (l ++ [⟨ε, 0⟩]) a.slack).eps, (totalCore (l ++ [⟨ε, 0⟩]) a.slack).delta⟩ := hb'.1
-  have he0' := totalCore_eps_nonneg L' a.slack hnn
-  refine ⟨forM_ok_of_all L' hvalid, ⟨_, _⟩, mkBudget_of_range _ _ he0' ?_ ?_, ?_, ?_⟩
-  · rw [hdelta]; exact hb'.2.2.1
-  · rw [hdelta]; exact hb'.2.2.2
-  · show (totalCore L' a.slack).eps ≤ a.ceilEps
-    have : b.eps = (totalCore (l ++ [⟨ε, 0⟩]) a.slack).eps := by rw [hbeq]
-    linarith
-  · show (totalCore L' a.slack).delta ≤ a.ceilDelta
-    have : b.delta = (totalCore (l ++ [⟨ε, 0⟩]) a.slack).delta := by rw [hbeq]
-    rw [hdelta]; linarith
 
 end Charged
 end DPL
